@@ -97,3 +97,142 @@ Example C07_example_history :
             -5; 9000001; 10000002; 11000000; 12000001; 14000000; 15000001; 16000002; 17000000];
      [0; 0; 1; 2]; [0; 1; 2]; [0; 0; 1; 2]; [0; 1; 2]; [-1; 1]; [-2]].
 Proof. vm_compute. reflexivity. Qed.
+
+(* ---------------------------------------------------------------- orthogonal grids ----------- *)
+(* the n-D offset constructions of OrthogonalMooreGrid / OrthogonalVonNeumannGrid._connect_cells_nd,
+   for EVERY number of axes: exactly the offsets of Chebyshev / Manhattan norm 1, none twice
+   (so no connection key is overwritten) *)
+Theorem C07_nd_offsets_moore : forall n d,
+  In d (moore_offsets n) <-> length d = n /\ norm_inf d = 1.
+Proof. exact moore_offsets_spec. Qed.
+Print Assumptions C07_nd_offsets_moore.
+
+Theorem C07_nd_offsets_vn : forall n d,
+  In d (vn_offsets n) <-> length d = n /\ norm_1 d = 1.
+Proof. exact vn_offsets_spec. Qed.
+Print Assumptions C07_nd_offsets_vn.
+
+Theorem C07_offsets_nodup : forall n, NoDup (moore_offsets n) /\ NoDup (vn_offsets n).
+Proof. intros n. split; [exact (moore_offsets_NoDup n)|exact (vn_offsets_NoDup n)]. Qed.
+Print Assumptions C07_offsets_nodup.
+
+(* the 2-D tables regenerated from grid.py on this run: exactly the norm-1 offsets, none twice *)
+Theorem C07_tables_2d :
+  (forall a b, In (a, b) gen_moore_offsets_2d <-> Z.max (Z.abs a) (Z.abs b) = 1) /\
+  (forall a b, In (a, b) gen_vn_offsets_2d <-> Z.abs a + Z.abs b = 1) /\
+  NoDup gen_moore_offsets_2d /\ NoDup gen_vn_offsets_2d.
+Proof. apply tables_2d_of_check. vm_compute. reflexivity. Qed.
+Print Assumptions C07_tables_2d.
+
+(* ... and the 2-D helper (i, j = coordinate; height, width = dimensions) is the n-D one on two axes *)
+Theorem C07_2d_is_nd : forall torus h w i j di dj,
+  connect_2d torus [h; w] [i; j] (di, dj) = connect_nd torus [h; w] [i; j] [di; dj].
+Proof. exact connect_2d_eq_nd. Qed.
+Print Assumptions C07_2d_is_nd.
+
+(* cell c is connected under offset d to c+d, wrapped on a torus, absent beyond the edge; for every
+   dimension vector (any number of axes, any sizes incl. 1 and 2) *)
+Theorem C07_conn_spec : forall torus dims c d c',
+  connect_nd torus dims c d = Some c' <->
+  c' = (if torus then wrap dims (vadd c d) else vadd c d) /\ in_bounds dims c' = true.
+Proof. exact connect_nd_spec. Qed.
+Print Assumptions C07_conn_spec.
+
+Theorem C07_in_bounds_spec : forall dims c, length c = length dims ->
+  (in_bounds dims c = true <-> Forall2 (fun x n => 0 <= x < n) c dims).
+Proof. exact in_bounds_spec. Qed.
+Print Assumptions C07_in_bounds_spec.
+
+(* the connections of a cell are exactly (d, target) for the offsets d that connect, each key once *)
+Theorem C07_cell_connections : forall torus dims offsets c,
+  (forall d c', In (d, c') (conns_nd torus dims offsets c) <-> In d offsets /\ connect_nd torus dims c d = Some c') /\
+  (NoDup offsets -> NoDup (map fst (conns_nd torus dims offsets c))).
+Proof. intros. split; [intros; apply conns_nd_In|apply conns_nd_keys_NoDup]. Qed.
+Print Assumptions C07_cell_connections.
+
+(* connection is symmetric: the target is connected back under the opposite offset (which is again an
+   offset of the same family), for every dimension vector, torus or not *)
+Theorem C07_symmetric : forall torus dims c d c',
+  length c = length dims -> length d = length dims -> in_bounds dims c = true ->
+  connect_nd torus dims c d = Some c' -> connect_nd torus dims c' (map Z.opp d) = Some c.
+Proof. exact connect_nd_symmetric. Qed.
+Print Assumptions C07_symmetric.
+
+Theorem C07_offsets_closed_under_opp : forall n d,
+  (In d (moore_offsets n) -> In (map Z.opp d) (moore_offsets n)) /\
+  (In d (vn_offsets n) -> In (map Z.opp d) (vn_offsets n)).
+Proof. intros n d. split; [apply moore_offsets_opp|apply vn_offsets_opp]. Qed.
+Print Assumptions C07_offsets_closed_under_opp.
+
+(* ---------------------------------------------------------------- hex ------------------------ *)
+(* with the even/odd tables and the parity selector regenerated from HexGrid._connect_cells_2d:
+   for EVERY cell (i, j) of Z^2, (di, dj) is one of its offsets iff the hexagons of (i, j) and
+   (i+di, j+dj) touch, i.e. are at cube distance 1 (even-q layout, column = coordinate[1]) *)
+Theorem C07_hex_touching : forall i j di dj,
+  In (di, dj) (hex_offsets [i; j]) <-> cube_dist i j (i + di) (j + dj) = 1.
+Proof. apply hex_touching_of_tables. vm_compute. reflexivity. Qed.
+Print Assumptions C07_hex_touching.
+
+(* hex connections are symmetric without wrapping and on tori whose parity axis has even size *)
+Theorem C07_hex_symmetric : forall torus h w i j di dj c',
+  0 < h -> 0 < w -> (torus = false \/ w mod 2 = 0) ->
+  in_bounds [h; w] [i; j] = true ->
+  In (di, dj) (hex_offsets [i; j]) ->
+  connect_2d torus [h; w] [i; j] (di, dj) = Some c' ->
+  In (- di, - dj) (hex_offsets c') /\ connect_2d torus [h; w] c' (- di, - dj) = Some [i; j].
+Proof. apply hex_symmetric. vm_compute. reflexivity. Qed.
+Print Assumptions C07_hex_symmetric.
+
+(* on a torus with an ODD parity axis the wrapped hexagonal tiling does not exist: asymmetric *)
+Theorem C07_hex_odd_torus_refuted :
+  exists c d c', In d (hex_offsets c) /\ connect_2d true [3; 3] c d = Some c' /\
+    forall d', In d' (hex_offsets c') -> connect_2d true [3; 3] c' d' <> Some c.
+Proof. exact hex_odd_torus_asymmetric. Qed.
+Print Assumptions C07_hex_odd_torus_refuted.
+
+(* ---------------------------------------------------------------- network -------------------- *)
+(* a Network's connections are the graph's edges (adjacency built like networkx add_edges_from) *)
+Theorem C07_network : forall edges u v,
+  In v (net_adj edges u) <-> In (u, v) edges \/ In (v, u) edges.
+Proof. exact net_adj_In. Qed.
+Print Assumptions C07_network.
+
+Theorem C07_network_symmetric : forall edges u v,
+  (In v (net_adj edges u) -> In u (net_adj edges v)) /\ NoDup (net_adj edges u).
+Proof. intros. split; [apply net_adj_sym|apply net_adj_NoDup]. Qed.
+Print Assumptions C07_network_symmetric.
+
+(* ---------------------------------------------------------------- Voronoi (specification) ----- *)
+(* what the implementation's connections are compared with: i ~ j iff i <> j and (only two centroids,
+   or) some third centroid spans with them a proper circle with no centroid strictly inside -
+   decided with exact integer arithmetic; symmetric.  Bowyer-Watson itself is not modelled. *)
+Theorem C07_delaunay_spec : forall pts i j,
+  delaunay_adj pts i j = true <->
+  i <> j /\ (Z.of_nat (length pts) = 2 \/
+             exists k, In k (idxs pts) /\ k <> i /\ k <> j /\
+               let a := znth pts i (0, 0) in let b := znth pts j (0, 0) in let c := znth pts k (0, 0) in
+               orient a b c <> 0 /\ forall p, In p pts -> strictly_inside a b c p = false).
+Proof. exact delaunay_adj_spec. Qed.
+Print Assumptions C07_delaunay_spec.
+
+Theorem C07_delaunay_symmetric : forall pts i j, delaunay_adj pts i j = delaunay_adj pts j i.
+Proof. exact delaunay_adj_sym. Qed.
+Print Assumptions C07_delaunay_symmetric.
+
+(* non-vacuity *)
+Example C07_example_grid :
+  connect_nd true [1; 2; 4] [0; 1; 3] [-1; 1; 1] = Some [0; 0; 0] /\
+  In [-1; 1; 1] (moore_offsets 3) /\ in_bounds [1; 2; 4] [0; 1; 3] = true /\
+  connect_nd false [1; 2; 4] [0; 1; 3] [0; 0; 1] = None /\ length (vn_offsets 4) = 8%nat.
+Proof. vm_compute. repeat split; try reflexivity. right; right; right; right; right; right; right; right. left. reflexivity. Qed.
+
+Example C07_example_hex :
+  hex_offsets [2; 3] = gen_hex_even_offsets /\ In (-1, 1) (hex_offsets [2; 3]) /\
+  connect_2d true [3; 4] [0; 3] (-1, 1) = Some [2; 0] /\ In (1, -1) (hex_offsets [2; 0]).
+Proof. vm_compute. repeat split; try reflexivity; auto 10. Qed.
+
+Example C07_example_delaunay :
+  delaunay_nbrs [(0, 0); (4, 0); (0, 4); (4, 4); (2, 1)] 0 = [1; 2; 4] /\
+  delaunay_adj [(0, 0); (4, 0); (0, 4); (4, 4); (2, 1)] 0 3 = false /\
+  net_adj [(0, 1); (2, 0)] 0 = [1; 2].
+Proof. vm_compute. repeat split; reflexivity. Qed.
